@@ -150,4 +150,14 @@ def St.reports (st : St β) : List (Item β) := st.log.map (·.1)
 /-- of one reporter goroutine -/
 def ofReporter (r : Nat) (l : List (Item β)) : List β := (l.filter (fun x => x.1 == r)).map (·.2)
 
+def isReportEv : Ev → Bool
+  | .report _ => true
+  | _ => false
+
+/-- every Report call happens before the cancel: no `report` event after the first `cancel` -/
+def NoReportAfterCancel : List Ev → Prop
+  | [] => True
+  | .cancel :: rest => ∀ e ∈ rest, isReportEv e = false
+  | _ :: rest => NoReportAfterCancel rest
+
 end Pandora.Model.AggQueue
